@@ -34,6 +34,11 @@ type C08Scenario struct {
 	TZs []string `json:"tzs,omitempty"`
 	// LowFD[i]: the processes of schedule i+1 run under a descriptor limit of 32
 	LowFD []bool `json:"low_fd,omitempty"`
+	// Torn[i] > 0: the working directory of schedule i+1 starts with the reports of an interrupted
+	// earlier run of the same pipeline: every report cut to Torn[i] percent of its length (100: empty)
+	Torn []int `json:"torn,omitempty"`
+	// Unpriv[i]: the processes of schedule i+1 run as an ordinary user owning the working directory
+	Unpriv []bool `json:"unpriv,omitempty"`
 	// Par[i]: the processes of schedule i+1 run with GOMAXPROCS=8
 	Par []bool `json:"par,omitempty"`
 	// CountTop+1: the row limit given to `coca count -t`
@@ -211,6 +216,15 @@ func (C08) Generate(t *tape.Tape, tier string) interface{} {
 		sc.TZs = append(sc.TZs, []string{"", "", "Asia/Tokyo", "America/Los_Angeles", "Pacific/Kiritimati"}[t.Pick(5)])
 		sc.LowFD = append(sc.LowFD, t.Bool(1, 4))
 		sc.Par = append(sc.Par, t.Bool(1, 4))
+		sc.Unpriv = append(sc.Unpriv, t.Bool(1, 5))
+		torn := 0
+		if t.Bool(1, 4) {
+			torn = 1 + t.Pick(100)
+			if t.Bool(1, 3) {
+				torn = 100 // cut to nothing
+			}
+		}
+		sc.Torn = append(sc.Torn, torn)
 		sc.CountTop = t.Pick(5)
 	}
 	return sc
@@ -780,6 +794,10 @@ func (C08) Run(ctx *sim.RunCtx, data json.RawMessage) (*sim.Outcome, error) {
 			site := ctx.Env.Sites[int(s.Seed%uint64(len(ctx.Env.Sites)))]
 			s.Site = strings.TrimPrefix(site, "dep:")
 		}
+		unpriv := si > 0 && si-1 < len(sc.Unpriv) && sc.Unpriv[si-1]
+		if unpriv {
+			out.Faults["unprivileged-user"]++
+		}
 		par := si > 0 && si-1 < len(sc.Par) && sc.Par[si-1]
 		if par {
 			out.Faults["real-parallelism"]++
@@ -811,6 +829,24 @@ func (C08) Run(ctx *sim.RunCtx, data json.RawMessage) (*sim.Outcome, error) {
 				return nil, sim.Harness("%v", err)
 			}
 		}
+		if si > 0 && si-1 < len(sc.Torn) && sc.Torn[si-1] > 0 {
+			// what an interrupted earlier run left in this directory: the canonical run's reports, torn
+			w0 := filepath.Join(ctx.Dir, "w0", "coca_reporter")
+			if ents, err := os.ReadDir(w0); err == nil {
+				os.MkdirAll(filepath.Join(w, "coca_reporter"), 0755)
+				for _, e := range ents {
+					if b, err := os.ReadFile(filepath.Join(w0, e.Name())); err == nil && !e.IsDir() {
+						os.WriteFile(filepath.Join(w, "coca_reporter", e.Name()), b[:len(b)*(sc.Torn[si-1]%100)/100], 0644)
+					}
+				}
+				var names []string
+				for _, e := range ents {
+					names = append(names, e.Name())
+				}
+				plantTmp(filepath.Join(w, "coca_reporter"), names)
+				out.Faults["reports-torn-by-interrupted-run"]++
+			}
+		}
 		gitLog := filepath.Join(w, "gitlog.txt")
 		os.WriteFile(gitLog, []byte(sc.GitLog), 0644)
 		arte := map[string]string{}
@@ -827,7 +863,7 @@ func (C08) Run(ctx *sim.RunCtx, data json.RawMessage) (*sim.Outcome, error) {
 				// resource faults aimed at coca's own code are not applied to it
 				cfd, cpar = 0, false
 			}
-			res, err := ctx.Run(&sim.Proc{Schedule: s, Cwd: w, TZ: tz, MaxOpenFiles: cfd, Parallel: cpar, Ops: []sim.Op{{Op: "cli", Args: map[string]interface{}{"args": c.args}}}})
+			res, err := ctx.Run(&sim.Proc{Schedule: s, Cwd: w, TZ: tz, MaxOpenFiles: cfd, Parallel: cpar, Unprivileged: unpriv, Ops: []sim.Op{{Op: "cli", Args: map[string]interface{}{"args": c.args}}}})
 			ctx.ProcTimeout = saved
 			if err != nil {
 				return nil, err
@@ -938,7 +974,7 @@ func (C08) Run(ctx *sim.RunCtx, data json.RawMessage) (*sim.Outcome, error) {
 		if repoDir != "" {
 			os.RemoveAll(filepath.Join(repoDir, "coca_reporter"))
 			for _, gc := range [][2]string{{"git-basic", "-b"}, {"git-team", "-t"}, {"git-top", "-o"}, {"git-summary", "-m"}, {"git-team-cut", "-t -f -s 3"}, {"git-top-cut", "-o -f -s 2"}} {
-				resg, err := ctx.Run(&sim.Proc{Schedule: s, Cwd: repoDir, TZ: tz, MaxOpenFiles: maxFD, Parallel: par, Ops: []sim.Op{{Op: "cli", Args: map[string]interface{}{"args": append([]string{"git"}, strings.Fields(gc[1])...), "read": []string{"coca_reporter/commits.json"}}}}})
+				resg, err := ctx.Run(&sim.Proc{Schedule: s, Cwd: repoDir, TZ: tz, MaxOpenFiles: maxFD, Parallel: par, Unprivileged: unpriv, Ops: []sim.Op{{Op: "cli", Args: map[string]interface{}{"args": append([]string{"git"}, strings.Fields(gc[1])...), "read": []string{"coca_reporter/commits.json"}}}}})
 				if err != nil {
 					return nil, err
 				}
@@ -969,7 +1005,7 @@ func (C08) Run(ctx *sim.RunCtx, data json.RawMessage) (*sim.Outcome, error) {
 		}
 		// library-style analysis: identifier pass, then the full pass with the project-wide identifier set
 		{
-			res, err := ctx.Run(&sim.Proc{Schedule: s, Cwd: w, TZ: tz, MaxOpenFiles: maxFD, Parallel: par, Ops: []sim.Op{{Op: "identDir", Args: map[string]interface{}{"dir": "src"}}}})
+			res, err := ctx.Run(&sim.Proc{Schedule: s, Cwd: w, TZ: tz, MaxOpenFiles: maxFD, Parallel: par, Unprivileged: unpriv, Ops: []sim.Op{{Op: "identDir", Args: map[string]interface{}{"dir": "src"}}}})
 			if err != nil {
 				return nil, err
 			}
@@ -977,7 +1013,7 @@ func (C08) Run(ctx *sim.RunCtx, data json.RawMessage) (*sim.Outcome, error) {
 			if res.Completed(0) && res.Records[0].OK {
 				identFile := filepath.Join(w, "lib-ident.json")
 				os.WriteFile(identFile, res.Records[0].Result, 0644)
-				res2, err := ctx.Run(&sim.Proc{Schedule: s, Cwd: w, TZ: tz, MaxOpenFiles: maxFD, Parallel: par, Ops: []sim.Op{{Op: "fullDir", Args: map[string]interface{}{"dir": "src", "ident": identFile}}}})
+				res2, err := ctx.Run(&sim.Proc{Schedule: s, Cwd: w, TZ: tz, MaxOpenFiles: maxFD, Parallel: par, Unprivileged: unpriv, Ops: []sim.Op{{Op: "fullDir", Args: map[string]interface{}{"dir": "src", "ident": identFile}}}})
 				if err != nil {
 					return nil, err
 				}
@@ -999,7 +1035,7 @@ func (C08) Run(ctx *sim.RunCtx, data json.RawMessage) (*sim.Outcome, error) {
 		if sc.GoFile != "" {
 			goPath := filepath.Join(w, "demo.go")
 			os.WriteFile(goPath, []byte(sc.GoFile), 0644)
-			resg, err := ctx.Run(&sim.Proc{Schedule: s, Cwd: w, TZ: tz, MaxOpenFiles: maxFD, Parallel: par, Ops: []sim.Op{{Op: "goIdent", Args: map[string]interface{}{"file": "demo.go"}}}})
+			resg, err := ctx.Run(&sim.Proc{Schedule: s, Cwd: w, TZ: tz, MaxOpenFiles: maxFD, Parallel: par, Unprivileged: unpriv, Ops: []sim.Op{{Op: "goIdent", Args: map[string]interface{}{"file": "demo.go"}}}})
 			if err != nil {
 				return nil, err
 			}
@@ -1018,7 +1054,7 @@ func (C08) Run(ctx *sim.RunCtx, data json.RawMessage) (*sim.Outcome, error) {
 		// one process; "the same input gives the same output on every run" also holds for the third parse
 		gitLog2 := filepath.Join(w, "gitlog2.txt")
 		os.WriteFile(gitLog2, []byte(sc.GitLog2), 0644)
-		res, err := ctx.Run(&sim.Proc{Schedule: s, Cwd: w, TZ: tz, MaxOpenFiles: maxFD, Parallel: par, Ops: []sim.Op{{Op: "git", Args: map[string]interface{}{"logs": []string{gitLog, gitLog2, gitLog}}}}})
+		res, err := ctx.Run(&sim.Proc{Schedule: s, Cwd: w, TZ: tz, MaxOpenFiles: maxFD, Parallel: par, Unprivileged: unpriv, Ops: []sim.Op{{Op: "git", Args: map[string]interface{}{"logs": []string{gitLog, gitLog2, gitLog}}}}})
 		if err != nil {
 			return nil, err
 		}
